@@ -326,9 +326,9 @@ func generate(ctx *core.Ctx) []*Program {
 	all = append(all, "")
 	all = append(all, Words(1)...)
 	all = append(all, Words(2)...)
-	all = append(all, SampleWords(r, 3, ctx.Pick(150, 1500))...)
-	all = append(all, SampleWords(r, 4, ctx.Pick(100, 1500))...)
-	all = append(all, ASCII()...)
+	all = append(all, SampleWords(r, 3, ctx.Pick(100, 1500))...)
+	all = append(all, SampleWords(r, 4, ctx.Pick(60, 1500))...)
+	all = append(all, ASCII(ctx.Thorough())...)
 	all = append(all, Specials...)
 	all = append(all, "\x00", "a\x00b")
 	long := LongStrings(ctx.Thorough())
@@ -367,7 +367,7 @@ func generate(ctx *core.Ctx) []*Program {
 		}
 	}
 	// random (position, context, string) triples beyond the systematic part
-	extra := ctx.Pick(1500, 30000)
+	extra := ctx.Pick(700, 30000)
 	for i := 0; i < extra; i++ {
 		pos := positions[r.Intn(len(positions))]
 		w := wrappers[r.Intn(len(wrappers))]
